@@ -225,6 +225,37 @@ func TestVerifC06Tables(t *testing.T) {
 		}
 	}
 
+	// encoder: an encoder output stored at position p (reserve pass or not), then Remove(0, b, e): EncoderCached()
+	for _, reserve := range []bool{false, true} {
+		for p := int32(0); p <= 4; p++ {
+			for b := int32(0); b <= 5; b++ {
+				for _, e := range []int32{0, 1, 2, 3, 4, 5, math.MaxInt32} {
+					backend := &vfBackend{maxNodes: 8192}
+					ec := NewEncoderCache()
+					ec.Init(backend, ml.DTypeF16, 1, 16, 8)
+					ctx := backend.NewContext()
+					batch := input.Batch{Positions: []int32{p}, Sequences: []int{0}, Multimodal: []input.MultimodalIndex{{Index: 0}}}
+					if err := ec.StartForward(ctx, batch, reserve); err != nil {
+						t.Fatal(err)
+					}
+					ec.SetLayer(0)
+					kt, _ := ctx.FromFloatSlice(make([]float32, 6), 1, 2, 3)
+					ec.Put(ctx, kt, kt)
+					ctx.Compute()
+					if err := ec.Remove(0, b, e); err != nil {
+						t.Fatal(err)
+					}
+					etok := int(e)
+					if e == math.MaxInt32 {
+						etok = -1
+					}
+					fmt.Fprintf(&sb, "encoder %s %d %d %d %s\n", vtB(reserve), p, b, etok, vtB(ec.EncoderCached()))
+					ec.Close()
+				}
+			}
+		}
+	}
+
 	if err := os.WriteFile(zzverif.OutDir()+"/tables.txt", []byte(sb.String()), 0o644); err != nil {
 		t.Fatal(err)
 	}
